@@ -78,6 +78,16 @@ def handle (line : String) : String :=
     match o.hex? "file" with
     | some f => runQueries o f
     | none => "bad-op"
+  | "wm" =>   -- pattern × host matrix: for every host the lines (= patterns) that match it on port 22
+    match o.hex? "file", (o.get? "kt").bind parseKT, (splitList (o.str "hosts") ",").mapM ofHex with
+    | some f, some kt, some hosts =>
+      match readDB kt f with
+      | .error n => s!"parse-err:{n}"
+      | .ok db => "|".intercalate (hosts.map fun h =>
+          match db.checkAddr ⟨h, port22⟩ 0 with
+          | .keyErr ls => showNats ls
+          | v => showVerdict v)
+    | _, _, _ => "bad-op"
   | "skf" =>   -- lines matching (host, port): what KeyError.Want lists for a key that is not in the file
     match o.hex? "file", (o.get? "kt").bind parseKT, o.hex? "host", o.get? "port" with
     | some f, some kt, some h, some p =>
